@@ -291,5 +291,10 @@ def gen_stream(rng, style=None, plain=False, doubling=None):
         for j in range(k + len(new), len(lines)):
           lines[j] = (lines[j][0] + pad, lines[j][1])
       feats.add("line_cut")
-  return {"lines": lines, "df": df, "parity": rng.random() < 0.8, "align": rng.choice([None, None, "left", "center", "right", "auto"]),
+  seps = None
+  if df and (not plain) and rng.random() < 0.2:
+    # the other customary spellings of a drop-frame label
+    seps = rng.choice([";;;", "...", ",,,", "::.", "::,", ";:;", ":;;"])
+    feats.add("label_separators_" + seps)
+  return {"lines": lines, "df": df, "seps": seps, "parity": rng.random() < 0.8, "align": rng.choice([None, None, "left", "center", "right", "auto"]),
           "features": sorted(feats), "style": style if not mixed else "mixed"}
